@@ -167,6 +167,32 @@ def run(ck, prog):
                                 include_src=True)
             r166_ob(ck, p, inserts)
     ck.anchor(found_test, "the test of resolve_include_file's result was not found in collect_sources")
+    # every include statement of the visited file is resolved: no iteration over the statements skips the call (a "this
+    # path was already seen in this file" shortcut leaves the second statement without link and with a false not-found)
+    every = None
+    for rb in [b] + prog.closures_of(b.path):
+        res = cfg.blocks_calling(rb, lambda c: c.endswith("resolve_include_file"))
+        if not res:
+            continue
+        if rb.parent:
+            every = cfg.path_exists(rb, 0, lambda x: rb.term(x)["k"] == "return", avoid=res, include_src=True) is None
+        else:
+            nxts = [i for i, t in rb.calls() if re.search(r"Iterator>::next$", Body.callee(t) or "") and
+                    any(i in bl and (res & set(bl)) for _, bl in cfg.loops(rb))]
+            inner = None
+            for hh, bl in cfg.loops(rb):
+                if res & set(bl) and (inner is None or len(bl) < len(inner[1])):
+                    inner = (hh, bl)
+            if inner is not None:
+                nx = [i for i in nxts if i in inner[1]]
+                tests = [t for t in brackets.option_tests(rb, prog) if t["src_bb"] in nx]
+                every = bool(tests) and all(
+                    cfg.path_exists(rb, t["some_target"], lambda x: x in nx, avoid=res | (set(range(len(rb.blocks))) - set(inner[1])),
+                                    include_src=True) is None for t in tests)
+    ck.ob("R16.6", "every-include-resolved", every is True,
+          "each include statement of a visited file reaches resolve_include_file",
+          msg="collect_sources can move on to the next include statement without resolving the current one: that statement "
+              "gets no entry in the include map (no link, a false 'include file not found')")
     include_targets(ck, prog, b, "R16.6")
     sets = [(i, t) for i, t in b.calls() if (t["f"].get("decl") or Body.callee(t) or "").endswith("set_resolved_include_map")]
     ok = bool(sets)
